@@ -84,7 +84,9 @@ def do_twin(sim, rec):
         # the source is a complex whose closure was interrupted by a raising call: a rebuild
         # re-closes it; the twin is adopted as it is
         act.model = M.model_from_snapshot(act.kind, act.snap)
-        act.sc_dirty = False
+        # copy() and the constructor rebuild (and thereby re-close) the complex; a pickle round
+        # trip reproduces it as it is, incomplete closure included
+        act.sc_dirty = how == "pickle"
         return rec["new"]
     birth_check(sim, rec, act, {"C07"} | ({"C18"} if was_frozen else set()))
     if rec.get("uid_after") == "auto":
